@@ -56,7 +56,8 @@ def schema_for(op: str, tier: str, constraint: Any) -> List[SC.Schema]:
     if op == "conv1d":
         return SC.conv1d_schemas("quick", constraint)
     if op == "add":
-        return SC.add_schemas(tier, constraint)[:4]
+        sch = SC.add_schemas(tier, constraint)
+        return sch[:4] + sch[6:]
     raise KeyError(op)
 
 
